@@ -5,6 +5,7 @@
 // every returned value are compared with an executable reference model driven by spec/fields.def.
 #include <sys/mman.h>
 #include <unistd.h>
+#include <cerrno>
 #include <algorithm>
 #include <cstring>
 #include <map>
@@ -85,7 +86,7 @@ static std::string gen(const std::string &prop, uint64_t base, uint64_t idx, boo
             std::string fn = f->name;
             bool cf = fn == "Tscf" || fn == "Ntscf";
             int pay = (int)r.range(0, 6) * 4;
-            if ((fn == "Can" || fn == "CanBrief") && r.chance(0.6)) pay = 68;  // room for the message builders (64 bytes of payload + padding)
+            if ((fn == "Can" || fn == "CanBrief") && r.chance(0.6)) pay = r.chance(0.3) ? 2048 : 68;  // room for the message builders (64 bytes of payload + padding; sometimes for the 9-bit length field's full range)
             if (fn == "Vss" && r.chance(0.6)) pay = (int)(r.coin() ? 2048 : 300);  // room for Avtp_Vss_Pad (message lengths up to 2044 bytes)
             std::vector<std::pair<const BindFormat *, int>> subs;
             if (cf && r.chance(0.6)) {
@@ -144,6 +145,16 @@ static std::string gen(const std::string &prop, uint64_t base, uint64_t idx, boo
             // the VSS codec proper, scalar datatypes: addressing mode and datatype fields, path (static id or length-prefixed string) and value
             unsigned am = (unsigned)r.below(2), dt = (unsigned)r.below(11);
             static const unsigned nb[] = {1, 1, 2, 2, 4, 4, 8, 8, 1, 4, 8};
+            if (r.chance(0.4)) {  // string or array value: 16-bit byte count, then the elements in network byte order
+                static const unsigned vdt[] = {0xB, 0x80, 0x81, 0x82, 0x83, 0x84, 0x85, 0x86, 0x87, 0x88, 0x89, 0x8A};
+                static const unsigned ves[] = {1, 1, 1, 2, 2, 4, 4, 8, 8, 1, 4, 8};
+                unsigned vi = (unsigned)r.below(12), es = ves[vi];
+                unsigned plen2 = am == 1 ? 0 : (unsigned)r.below(std::min(200, b.pay / 2));
+                unsigned roomv = (unsigned)b.pay - (am == 1 ? 4 : 2 + plen2) - 2 - 8;
+                unsigned nel = (unsigned)(r.chance(0.5) ? r.below(8) : r.below(roomv / es + 1));
+                line(strf("op b=%d vssenc am=%u dt=%u plen=%u sid=0x%x v=0x0 pseed=0x%llx alen=%u", b.id, am, vdt[vi], plen2, (unsigned)r.next(), (unsigned long long)r.next(), nel * es));
+                continue;
+            }
             unsigned room = (unsigned)b.pay - nb[dt] - 2;
             unsigned plen = am == 1 ? 0 : (unsigned)(r.chance(0.4) ? std::min<unsigned>(room, (unsigned[]){0, 1, 13, 255, 256, 1009, 1010, 1013, 1020, 1021, 2000}[r.below(11)]) : r.below(room + 1));
             line(strf("op b=%d vssenc am=%u dt=%u plen=%u sid=0x%x v=0x%llx pseed=0x%llx", b.id, am, dt, plen, (unsigned)r.next(), (unsigned long long)(dt == 8 ? r.below(2) : r.next()),
@@ -162,9 +173,10 @@ static std::string gen(const std::string &prop, uint64_t base, uint64_t idx, boo
             // the ACF-CAN message builders are compound writes: payload copy, identifier/EFF/FDF, length and pad fields, zeroed padding
             static const char *kinds[] = {"create", "create", "setpayload", "finalize"};
             unsigned len = (unsigned)(r.chance(0.3) ? (unsigned[]){0, 1, 3, 4, 5, 8, 12, 63, 64}[r.below(9)] : r.below(65));
+            if (b.pay >= 2048 && r.chance(0.5)) len = (unsigned)(r.coin() ? (unsigned[]){65, 255, 256, 1004, 1005, 1008, 1009, 2024, 2028}[r.below(9)] : r.range(65, 2028));
             uint32_t bid = (uint32_t)(r.chance(0.4) ? (uint32_t[]){0, 1, 0x7ff, 0x800, 0x1fffffff, 0x20000000, 0xffffffffu}[r.below(7)] : r.next());
             // (a data-less frame is also built with a null payload pointer)
-            line(strf("op b=%d build kind=%s id=0x%x len=%u variant=%d dseed=0x%llx%s", b.id, kinds[r.below(4)], bid, len, (int)r.below(2), (unsigned long long)r.next(),
+            line(strf("op b=%d build kind=%s id=0x%x len=%u variant=%d dseed=0x%llx%s", b.id, kinds[r.below(4)], bid, len, (int)(r.chance(0.85) ? r.below(2) : (unsigned[]){2, 3, 4, 8, 16, 255}[r.below(6)]), (unsigned long long)r.next(),
                       (len == 0 && r.coin()) ? " nullp=1" : ""));
             continue;
         }
@@ -305,7 +317,9 @@ static void buf_free(uint8_t *p, size_t n) { if (!g_pages) free(p); else munmap(
 static void buf_protect(uint8_t *raw, size_t n, bool ro) { if (g_pages) mprotect(raw, pages_len(n), ro ? PROT_READ : PROT_READ | PROT_WRITE); }
 
 static uint64_t g_dirty_pat = ~0ULL;
-#define DIRTY() dirty_stack(g_dirty_pat)
+// (errno is the caller's as well: a stale value - a function of the operation index - must not influence a library call)
+static int g_stale_errno = 0;
+#define DIRTY() do { errno = g_stale_errno; dirty_stack(g_dirty_pat); } while (0)
 
 static void fill_garbage(uint8_t *p, size_t n, Rng &r) {
     for (size_t i = 0; i < n; i++) p[i] = (uint8_t)r.next();
@@ -390,6 +404,8 @@ static void exec(const std::string &text, bool verbose) {
         {   // stack residue: all-ones, 0xA5, small values or random bytes, by operation index
             static const uint64_t pats[] = {~0ULL, 0xA5A5A5A5A5A5A5A5ULL, 0x0101010101010101ULL, 0x0302010003020100ULL};
             g_dirty_pat = (op_index & 4) ? garbage.next() : pats[op_index & 3];
+            static const int errs[] = {0, 0, EINVAL, EMSGSIZE, ERANGE, EOVERFLOW, ENOMEM, EAGAIN, EINTR, ENOBUFS, E2BIG, EDOM};
+            g_stale_errno = errs[(op_index * 7 + 3) % 12];
         }
         auto bit = bufs.find((int)kv.u64("b"));
         if (bit == bufs.end()) continue;
@@ -542,8 +558,12 @@ static void exec(const std::string &text, bool verbose) {
             if (std::string(f->name) != "Vss" || b.parent >= 0) continue;
             static const unsigned nb[] = {1, 1, 2, 2, 4, 4, 8, 8, 1, 4, 8};
             unsigned am = (unsigned)kv.u64("am") & 1, dt = (unsigned)kv.u64("dt");
-            if (dt > 10) continue;
-            size_t plen = am == 1 ? 0 : kv.u64("plen"), pathbytes = am == 1 ? 4 : 2 + plen, n = nb[dt];
+            bool var = dt == 0xB || (dt >= 0x80 && dt <= 0x8A);
+            if (dt > 10 && !var) continue;
+            static const unsigned ves[] = {1, 1, 2, 2, 4, 4, 8, 8, 1, 4, 8};
+            size_t es = dt == 0xB ? 1 : var ? ves[dt - 0x80] : 0, alen = var ? kv.u64("alen") : 0;
+            if (var && (alen % es || alen > 65535)) continue;
+            size_t plen = am == 1 ? 0 : kv.u64("plen"), pathbytes = am == 1 ? 4 : 2 + plen, n = var ? 2 + alen : nb[dt];
             if (b.off + 12 + pathbytes + n > a.size - kGuard || plen > 65535) continue;
             uint32_t sid = (uint32_t)kv.u64("sid");
             uint64_t v = kv.u64("v");
@@ -552,15 +572,24 @@ static void exec(const std::string &text, bool verbose) {
             for (auto &ch : path) ch = (char)(0x21 + pr.below(0x5e));
             ev("vssenc", strf("b=%d am=%u dt=%u plen=%zu v=0x%llx", b.id, am, dt, plen, (unsigned long long)v));
             char *pp = path.data();
+            std::vector<uint8_t> arr(alen + 8);
+            for (auto &x : arr) x = (uint8_t)pr.next();
+            uint8_t *ap = arr.data();
             DIRTY();
-            drv_vss_encode(pdu, am, dt, sid, pp, (uint16_t)plen, v, nullptr, 0);
+            drv_vss_encode(pdu, am, dt, sid, pp, (uint16_t)plen, v, var ? ap : nullptr, (uint16_t)alen);
             { const BindField *fl = find_field(f, "ADDR_MODE"); if (fl) wire::set_bits(mpdu, fl->bit, fl->width, am); }
             { const BindField *fl = find_field(f, "VSS_DATATYPE"); if (fl) wire::set_bits(mpdu, fl->bit, fl->width, dt); }
             uint8_t *mp = mpdu + 12;
             if (am == 1) { for (int i = 0; i < 4; i++) mp[i] = (uint8_t)(sid >> (24 - 8 * i)); }
             else { mp[0] = (uint8_t)(plen >> 8); mp[1] = (uint8_t)plen; memcpy(mp + 2, path.data(), plen); }
             mp += pathbytes;
-            for (size_t i = 0; i < n; i++) mp[i] = (uint8_t)(v >> (8 * (n - 1 - i)));  // big-endian scalar
+            if (var) {
+                mp[0] = (uint8_t)(alen >> 8); mp[1] = (uint8_t)alen;
+                for (size_t e = 0; e < alen / es; e++)
+                    for (size_t i = 0; i < es; i++) mp[2 + e * es + i] = arr[e * es + (es - 1 - i)];  // each element in network byte order
+            } else {
+                for (size_t i = 0; i < n; i++) mp[i] = (uint8_t)(v >> (8 * (n - 1 - i)));  // big-endian scalar
+            }
             per_entry["entry.vss_encode"]++;
             check_bytes(strf("Vss.<encode>:%s", am == 1 ? "static" : "interop"), strf("after encoding datatype 0x%x behind a %s path of %zu bytes", dt, am == 1 ? "static-id" : "interop", plen));
             b.has_last = false;
@@ -587,9 +616,9 @@ static void exec(const std::string &text, bool verbose) {
             if ((fmt != "Can" && !brief) || b.parent >= 0) continue;
             size_t hdr = f->spec_bytes, len = kv.u64("len");
             size_t pad = (4 - len % 4) % 4;
-            if (len > 64 || b.off + hdr + len + pad > a.size - kGuard) continue;
+            if (len > 2028 || b.off + hdr + len + pad > a.size - kGuard) continue;
             uint32_t cid = (uint32_t)kv.u64("id");
-            int variant = (int)kv.u64("variant") & 1;
+            int variant = (int)kv.u64("variant") & 0xff;  // (the FDF field holds the variant modulo its width of one bit)
             std::vector<uint8_t> src(len + 1);
             Rng dr(kv.u64("dseed", 1));
             for (auto &x : src) x = (uint8_t)dr.next();
@@ -604,13 +633,13 @@ static void exec(const std::string &text, bool verbose) {
             else if (bk == 1) { if (brief) drv_canbrief_finalize(pdu, (uint16_t)len); else drv_can_finalize(pdu, (uint16_t)len); m_finalize(); }
             else {
                 if (brief) drv_canbrief_setpayload(pdu, cid, srcp, (uint16_t)len, variant); else drv_can_create(pdu, cid, srcp, (uint16_t)len, variant);
-                m_payload(); mset("EFF", cid > 0x7ff); mset("CAN_IDENTIFIER", cid); mset("FDF", (uint64_t)variant); m_finalize();
+                m_payload(); mset("EFF", cid > 0x7ff); mset("CAN_IDENTIFIER", cid); mset("FDF", (uint64_t)variant & 1); m_finalize();
                 kind = "create";
             }
             per_entry["entry.build." + kind]++;
             check_bytes(strf("%s.<build>:%s", f->name, kind.c_str()), strf("after the %s builder (%s) with id 0x%x, %zu payload bytes, variant %d", f->name, kind.c_str(), cid, len, variant));
             // what the message says about its own payload must agree as well
-            if (!brief && (kind == "create" || kind == "finalize")) {
+            if (!brief && len <= 64 && (kind == "create" || kind == "finalize")) {
                 uint64_t got = drv_can_payload_length(pdu);
                 if (got != len) violation(strf("read:%s.<payload-length>", f->name), strf("Avtp_Can_GetCanPayloadLength returned %llu after the %s builder ran with %zu payload bytes", (unsigned long long)got, kind.c_str(), len));
             }
